@@ -28,7 +28,7 @@ CFG = dict(
     exhaustive={"quick": False, "thorough": False},
     exhaustive_domain={
         "quick": ("complete over: axis length 0..9 x across 0..4, kernel sizes 1..7 (fixed 1,3,5,7) x every centre, 5 options, "
-                  "8 functions, 4 regimes; convolve_2d shapes 0..6^2, n 1..5 every (cy,cx); extend_* shapes 1..6^2, count 0..3. "
+                  "8 functions, 9 regimes (4 same-layout, 5 with differing source/accumulator/destination channel order); convolve_2d shapes 0..6^2, n 1..5 every (cy,cx); extend_* shapes 1..6^2, count 0..3. "
                   "Image contents and kernel taps are seeded samples."),
         "thorough": ("axis length 0..16 x across 0..6, kernel sizes 1..11 (fixed 1,3,5,7); convolve_2d shapes 0..9^2, n 1..7; "
                      "extend_* shapes 1..9^2, count 0..5; contents seeded, 3 repetitions per 1-D tuple"),
@@ -37,9 +37,14 @@ CFG = dict(
            "rgb8 -> pixel<float,rgb> -> rgb32f (integer-valued float kernels)",
            "gray32f -> pixel<float,gray> -> gray32f (fractional kernels, tolerance)",
            "gray16s -> pixel<int,gray> -> gray32s (negative samples, int kernels)",
+           "mixed channel orders, compared per colour: bgr8 -> pixel<float,rgb> -> rgb32f; rgb8 -> pixel<float,rgb> -> bgr32f; "
+           "bgr8 -> pixel<float,rgb> -> bgr32f; rgba8 -> pixel<float,rgba> -> abgr32f; planar rgb8 -> pixel<float,rgb> -> bgr32f",
+           "convolve_2d with mixed channel orders: bgr8->rgb32f, rgba8->abgr32f, planar rgb8->bgr32f",
            "convolve_2d: gray8->gray32f, rgb8->rgb32f with detail::kernel_2d<float>, detail::kernel_2d_fixed<float,3|5>",
            "extend_row/col/boundary: gray8, rgb8"],
-    assumptions=["integer regimes are compared exactly (all intermediate values < 2^24); the float regime with tolerance "
+    assumptions=["channels pair by colour, not by memory position, whenever source, accumulator and destination layouts differ "
+                 "(GIL's convention for pixel operations; the functions only require compatible colour spaces)",
+                 "integer regimes are compared exactly (all intermediate values < 2^24); the float regime with tolerance "
                  "1e-5*sum|k|*max|src| (1-D) and 1e-4*sum|k|*255 (convolve_2d, fractional kernels)",
                  "preconditions respected: kernel non-empty, centre < size, fixed kernels odd, source and destination of equal "
                  "dimensions, extend_padded sources really have the declared padding, extend_* sources non-empty",
@@ -49,11 +54,15 @@ CFG = dict(
     tus=[tu("c15_p0", _SRC, "asan", extra=["-DC15_PART=0"], deps=_DEPS),
          tu("c15_p1", _SRC, "asan", extra=["-DC15_PART=1"], deps=_DEPS),
          tu("c15_p2", _SRC, "asan", extra=NONULL + ["-DC15_PART=2"], deps=_DEPS),
-         tu("c15_p3", _SRC, "asan", extra=["-DC15_PART=3"], deps=_DEPS)],
+         tu("c15_p3", _SRC, "asan", extra=["-DC15_PART=3"], deps=_DEPS)]
+        # mixed channel orders (1-D: parts 4..8, convolve_2d: part 9)
+        + [tu("c15_p%d" % k, _SRC, "asan", extra=NONULL + ["-DC15_PART=%d" % k], deps=_DEPS) for k in range(4, 10)],
     runs=[run("c15_p0", shards=5, min_cases={"quick": 2000, "thorough": 4700}),
           run("c15_p1", shards=5, min_cases={"quick": 2000, "thorough": 4700}),
           run("c15_p2", shards=6, min_cases={"quick": 2800, "thorough": 6300}),
-          run("c15_p3", shards=5, min_cases={"quick": 2000, "thorough": 4700})],
+          run("c15_p3", shards=5, min_cases={"quick": 2000, "thorough": 4700})]
+         + [run("c15_p%d" % k, shards=4, min_cases={"quick": 2000, "thorough": 4700}) for k in range(4, 9)]
+         + [run("c15_p9", shards=4, min_cases={"quick": 294, "thorough": 600})],
     require_obs=["correlate_rows.extend_padded.narrow", "convolve_cols_fixed.output_ignore.wide",
                  "correlate_cols.extend_constant.k1", "convolve_rows.output_zero.narrow"],
 )
